@@ -124,6 +124,10 @@ type Comparison struct {
 	ValueIsRegex    bool // True if Values is a regex string. False if Values is a wildcarded string or anything else.
 	CaseInsensitive bool
 	IsTerm          bool // True if this is of the form `field=TERM(value)` or `field=TERM("value")`
+	// True if this is a comparison of all columns with a number (`404`, `*=404`, `*<5`) under a NOT: such a comparison
+	// selects the events where SOME column satisfies it, so its negation selects the events where NO column does. That
+	// is not the flipped operator on some column; the comparison is kept as it is and its result is negated.
+	Negated bool
 }
 
 func (c *Comparison) isMatchAll() bool {
